@@ -540,24 +540,12 @@ theorem gen_dispatch (expf : Rat → Rat) (name : String) (tol : Rat) :
   simp [h1, h2, h3, h4, h5, h6, this]
 
 
-/-- calling the object returned by `get_merge_accept_fn` (Python's `obj(...)`): dispatch on the class
-name to the generated `__call__` of that class, passing the attributes `__init__` stored -/
-def callObj (expf : Rat → Rat) (obj : List PV) (thr nl nn ol ml on mn : PV) : PV :=
-  match obj with
-  | [PV.str "RadiusMerge"] => BBGen.RadiusMerge_call expf thr nl nn ol ml on mn
-  | [PV.str "DiameterMerge"] => BBGen.DiameterMerge_call expf thr nl nn ol ml on mn
-  | [PV.str "ToleranceMerge", t] => BBGen.ToleranceMerge_call expf t thr nl nn ol ml on mn
-  | [PV.str "ToleranceDiameterMerge", d, o, t] => BBGen.ToleranceDiameterMerge_call expf d o t thr nl nn ol ml on mn
-  | [PV.str "ToleranceRadiusMerge", d, o, t] => BBGen.ToleranceRadiusMerge_call expf d o t thr nl nn ol ml on mn
-  | [PV.str "NeverMerge", d, o, t] => BBGen.NeverMerge_call expf d o t thr nl nn ol ml on mn
-  | _ => PV.err "TypeError"
-
 /-- **the generated merge criteria are the model's**: for every criterion, tolerance and threshold,
 calling the object that the generated `get_merge_accept_fn` builds, on summaries the tree can
 produce, returns exactly the model's `accept` (with the exp table read off `np.exp`) -/
 theorem gen_accept (expf : Rat → Rat) (m : MergeFn) (thr : Rat) (new old nom : Summary)
     (w w' w'' : W) (hn : SumOk new) (ho : SumOk old) (hO : 1 ≤ old.n) :
-    callObj expf (objOf expf m) (PV.flt (some thr)) (PV.arr w new.ls) (PV.int new.n)
+    BBGen.MergeAcceptFunction_call expf (objOf expf m) (PV.flt (some thr)) (PV.arr w new.ls) (PV.int new.n)
         (PV.arr w' old.ls) (PV.arr w'' nom.ls) (PV.int old.n) (PV.int nom.n)
       = PV.bool (accept m (tabOf expf) thr new old nom) := by
   obtain ⟨c, tol⟩ := m
